@@ -699,7 +699,8 @@ static int do_step(char *tok)
 	}
 	if (!strcmp(op, "ienc") && n == 2) {
 		int s = atoi(a[1]);
-		if (s < 0 || s >= NIX || ix[s] == NULL) return RET_BADOP;
+		if (s < 0 || s >= NIX) return RET_BADOP;
+		if (ix[s] == NULL) return RET_SKIP;      // an earlier failure left no Index to encode
 		uint64_t fp = index_fp(ix[s]);
 		lzma_ret r = lzma_index_encoder(&strm, ix[s]);
 		if (index_fp(ix[s]) != fp) add_err("caller-index-modified");
@@ -749,8 +750,10 @@ static int do_step(char *tok)
 	}
 	if ((!strcmp(op, "idec") || !strcmp(op, "fidec")) && n == 3) {
 		int s = atoi(a[1]);
-		cur_recipe = get_recipe(a[2]);
-		if (s < 0 || s >= NIX || ix[s] != NULL || !cur_recipe) return RET_BADOP;
+		recipe_t *rcp = get_recipe(a[2]);
+		if (s < 0 || s >= NIX || !rcp) return RET_BADOP;
+		if (ix[s] != NULL) return RET_SKIP;      // slot still occupied because an earlier step failed
+		cur_recipe = rcp;
 		cur_slot = s;
 		lzma_ret r = op[0] == 'i' ? lzma_index_decoder(&strm, &ix[s], UINT64_MAX)
 				: lzma_file_info_decoder(&strm, &ix[s], UINT64_MAX, cur_recipe->data.n);
@@ -797,7 +800,8 @@ static int do_step(char *tok)
 	// ---- lzma_index_* with an allocator ----
 	if (!strcmp(op, "ix_init") && n == 2) {
 		int s = atoi(a[1]);
-		if (s < 0 || s >= NIX || ix[s] != NULL) return RET_BADOP;
+		if (s < 0 || s >= NIX) return RET_BADOP;
+		if (ix[s] != NULL) return RET_SKIP;
 		uint64_t fp = ta_live_fp();
 		ix[s] = lzma_index_init(&TA_ALLOC);
 		if (ix[s] == NULL) {
@@ -810,7 +814,8 @@ static int do_step(char *tok)
 	if (!strcmp(op, "ix_app") && n == 3) {
 		int s = atoi(a[1]);
 		uint64_t cnt = strtoull(a[2], NULL, 10);
-		if (s < 0 || s >= NIX || ix[s] == NULL) return RET_BADOP;
+		if (s < 0 || s >= NIX) return RET_BADOP;
+		if (ix[s] == NULL) return RET_SKIP;
 		uint64_t base = lzma_index_block_count(ix[s]);
 		lzma_ret r = LZMA_OK;
 		for (uint64_t k = 0; k < cnt && r == LZMA_OK; ++k) {
@@ -827,7 +832,8 @@ static int do_step(char *tok)
 	}
 	if (!strcmp(op, "ix_cat") && n == 3) {
 		int d = atoi(a[1]), s = atoi(a[2]);
-		if (d < 0 || d >= NIX || s < 0 || s >= NIX || d == s || !ix[d] || !ix[s]) return RET_BADOP;
+		if (d < 0 || d >= NIX || s < 0 || s >= NIX || d == s) return RET_BADOP;
+		if (!ix[d] || !ix[s]) return RET_SKIP;
 		uint64_t fd = index_fp(ix[d]), fs = index_fp(ix[s]), lfp = ta_live_fp();
 		lzma_ret r = lzma_index_cat(ix[d], ix[s], &TA_ALLOC);
 		if (r == LZMA_OK) {
@@ -840,7 +846,8 @@ static int do_step(char *tok)
 	}
 	if (!strcmp(op, "ix_dup") && n == 3) {
 		int d = atoi(a[1]), s = atoi(a[2]);
-		if (d < 0 || d >= NIX || s < 0 || s >= NIX || d == s || ix[d] || !ix[s]) return RET_BADOP;
+		if (d < 0 || d >= NIX || s < 0 || s >= NIX || d == s) return RET_BADOP;
+		if (ix[d] || !ix[s]) return RET_SKIP;
 		uint64_t fs = index_fp(ix[s]), lfp = ta_live_fp();
 		ix[d] = lzma_index_dup(ix[s], &TA_ALLOC);
 		if (index_fp(ix[s]) != fs) add_err("index-modified-by-dup");
@@ -866,7 +873,8 @@ static int do_step(char *tok)
 	if (!strcmp(op, "ix_bufdec") && n == 3) {
 		int s = atoi(a[1]);
 		recipe_t *rc = get_recipe(a[2]);
-		if (s < 0 || s >= NIX || ix[s] != NULL || !rc) return RET_BADOP;
+		if (s < 0 || s >= NIX || !rc) return RET_BADOP;
+		if (ix[s] != NULL) return RET_SKIP;
 		uint64_t memlimit = UINT64_MAX, lfp = ta_live_fp();
 		size_t pos = 0;
 		lzma_ret r = lzma_index_buffer_decode(&ix[s], &memlimit, &TA_ALLOC, rc->data.p, &pos, rc->data.n);
